@@ -388,9 +388,9 @@ func bitOf(m string) int64 {
 		return 64
 	case "SSL":
 		return 256
-	case "TOKEN":
+	case "TOKEN", "IDTOKENS":
 		return 2048
-	case "SCITOKENS", "IDTOKENS":
+	case "SCITOKENS":
 		return 4096
 	}
 	return 0
